@@ -1,5 +1,5 @@
 """C18 - step-advancing requests on one instance never interleave."""
-import itertools, json, random
+import itertools, json, random, threading
 from .. import tlc, common, sched, srv_adapter as S
 
 INV = ["Exclusive", "Serial", "Consecutive", "NoDup", "ClockExact", "Released", "RefusedNothing"]
@@ -15,7 +15,7 @@ ERR_BODIES = {     # kind "err/<variant>": (endpoint, raw body) the handler reje
 
 def cons(kinds, dev='{}', abort=None):
     rs = "abc"[:len(kinds)]
-    K = " @@ ".join('"%s" :> "%s"' % (r, k.split("/")[0]) for r, k in zip(rs, kinds))
+    K = " @@ ".join('"%s" :> "%s"' % (r, k.split("/")[0].split("!")[0]) for r, k in zip(rs, kinds))
     A = " @@ ".join('"%s" :> %d' % (r, (abort or {}).get(r, 0)) for r in rs)
     return dict(Reqs="{" + ",".join('"%s"' % r for r in rs) + "}", Kind="(" + K + ")", Abort="(" + A + ")",
                 N=str(NSTEPS), Stop=str(STOP), Dev=dev)
@@ -38,7 +38,8 @@ def times_of(body):
 def execute(kinds, abort, schedule, fine=False):
     """run the requests of the given kinds on a fresh session under the forced schedule;
     returns (events, outcome dict)"""
-    srv = S.Srv(stop=STOP, adapter=False, base_constants=True)
+    need_adapter = any(k == "save" or k.endswith("!fault") for k in kinds)
+    srv = S.Srv(stop=STOP, adapter=need_adapter, base_constants=True)
     try:
         srv.start("i1", 500)
         srv.begin("i1", "base", 0)
@@ -51,10 +52,33 @@ def execute(kinds, abort, schedule, fine=False):
         ctl = sched.Controller(probe)
         inst.session_state = sched.TracedState(inst.session_state, ctl)
 
+        fault = threading.local()
+        if need_adapter:
+            ad = srv.app._external_state_adapter
+            real_save = ad.save_instance
+            def save_instance(state, *a, **k):
+                if getattr(fault, "armed", False):
+                    fault.armed = False
+                    raise OSError(28, "No space left on device")       # the storage fails for exactly this request's save
+                return real_save(state, *a, **k)
+            ad.save_instance = save_instance
+
         def mk(rid, kind):
             def fn():
                 cl = srv.app.test_client()
                 hdr = dict(content_type="application/json")
+                if kind == "save":
+                    r = cl.get("/save-state")
+                    return r.status_code, r.get_data(as_text=True)
+                if kind.endswith("!fault"):
+                    fault.armed = True
+                    try:
+                        r = cl.post("/%s/run-steps" % uid, data=json.dumps({"settings": {}, "numberSteps": NSTEPS}), **hdr)
+                        return r.status_code, r.get_data(as_text=True)
+                    except OSError as e:
+                        return 500, "storage fault: %s" % e
+                    finally:
+                        fault.armed = False
                 if kind.startswith("err/"):
                     endpoint, body = ERR_BODIES[kind[4:]]
                     r = cl.post("/%s/%s" % (uid, endpoint), data=body, **hdr)
@@ -86,7 +110,7 @@ def execute(kinds, abort, schedule, fine=False):
         rs = "abc"[:len(kinds)]
         ctl.no_loop = {rid for rid, kind in zip(rs, kinds) if kind.startswith("err/")}
         for rid, kind in zip(rs, kinds):
-            ctl.spawn(rid, mk(rid, kind))
+            ctl.spawn(rid, mk(rid, kind), gated=(kind == "save"))
         ctl.run(schedule, fine)
         out = {"resp": {}, "errors": {}}
         for rid, w in ctl.workers.items():
@@ -123,10 +147,15 @@ def judge(kinds, events, out):
             alltimes += ts
     if len(set(alltimes)) != len(alltimes):
         bad.append(("(3) a simulation time was produced twice", sorted(alltimes)))
-    if out["clock"] != 1 + len(alltimes):
-        bad.append(("(4) clock advanced by %d for %d steps returned" % (out["clock"] - 1, len(alltimes)), sorted(alltimes)))
-    if out["results_times"] is not None and sorted(set(alltimes)) != out["results_times"]:
-        bad.append(("(4) session-results times differ from the steps returned", (sorted(alltimes), out["results_times"])))
+    faulty = any(k.endswith("!fault") for k in kinds)      # a request whose save failed answers 500 although its steps were taken
+    if faulty:
+        if out["results_times"] is not None and out["clock"] != 1 + len(out["results_times"]):
+            bad.append(("(4) clock advanced by %d for %d logged steps" % (out["clock"] - 1, len(out["results_times"])), out["results_times"]))
+    else:
+        if out["clock"] != 1 + len(alltimes):
+            bad.append(("(4) clock advanced by %d for %d steps returned" % (out["clock"] - 1, len(alltimes)), sorted(alltimes)))
+        if out["results_times"] is not None and sorted(set(alltimes)) != out["results_times"]:
+            bad.append(("(4) session-results times differ from the steps returned", (sorted(alltimes), out["results_times"])))
     if out["lock"]:
         bad.append(("(5) lock still set after all requests ended", out["lock"]))
     st, row = out["followup"]
@@ -158,7 +187,10 @@ def run(tier, replay_file=None):
     errs = sorted(ERR_BODIES)
     combos += [(("err/" + v,), {}) for v in errs]
     combos += [(("err/" + v, KINDS[i % 3]), {}) for i, v in enumerate(errs)] + [((KINDS[(i + 1) % 3], "err/" + v), {}) for i, v in enumerate(errs)]
-    triples = [(("steps", "stream", "step"), {"b": 1}), (("step", "step", "steps"), {}), (("stream", "steps", "steps"), {})]
+    # a GET /save-state between the steps of stepping requests, and a run-steps whose own save fails
+    combos += [(("steps", "save"), {}), (("stream", "save"), {}), (("save", "step"), {}), (("steps!fault",), {}), (("steps!fault", "step"), {})]
+    triples = [(("steps", "stream", "step"), {"b": 1}), (("step", "step", "steps"), {}), (("stream", "steps", "steps"), {}),
+               (("steps", "save", "step"), {}), (("stream", "save", "steps"), {})]
     if not quick:
         triples += [(k, {}) for k in itertools.product(KINDS, repeat=3)]
     R.cov["states"], R.cov["transitions"] = 0, 0
